@@ -25,13 +25,38 @@ def world():
     return _WORLD
 
 
+def _support_filter(skip_prop, labels, only_posts):
+    """which obligations of a function that a verified caller summarised by contract carry the caller's proof: everything the
+    caller assumed (the clauses it really used, the frame, the absence of undeclared exceptions, the effect set) and what those
+    rest on (the function's own callee preconditions and loop obligations); not: clauses no caller used, termination variants"""
+    def f(ob):
+        if skip_prop and skip_prop in ob.props:
+            return False            # already counted as an obligation of the property itself
+        if ob.kind == "variant":
+            return False
+        if ob.kind == "post":
+            label = ob.name.split("::post::", 1)[1]
+            return labels is None or label in labels
+        return not only_posts
+    return f
+
+
 def _worker(job):
-    fq, known, pid, part = job
+    fq, known, pid, part = job[:4]
+    support = job[4] if len(job) > 4 else None
     try:
         from pyvc.driver import verify_function
         w = world()
         c = w.contracts[fq]
-        rep = verify_function(w, c, known=known, only_prop=pid, part=part)
+        if support is None:
+            rep = verify_function(w, c, known=known, only_prop=pid, part=part)
+        else:
+            rep = verify_function(w, c, known=known, only_prop=None, part=part,
+                                  ob_filter=_support_filter(support["skip"], support["labels"], support["only_posts"]))
+            for ob in rep["obligations"]:
+                ob["supporting"] = True
+                if support["pid"] not in ob["props"]:
+                    ob["props"].append(support["pid"])
         rep["status"] = "ok"
         return rep
     except Exception as e:  # checker failure, never a violation
@@ -114,6 +139,58 @@ def run_property(pid, tier, seed):
             part_reports = pool.map(_worker, jobs, chunksize=1)
     else:
         part_reports = [_worker(j) for j in jobs]
+    # ---- modular closure: every function that a verified function summarised by its contract must meet that contract, or the
+    # caller's proof rests on nothing.  Such functions are verified too ("supporting"), for exactly what callers assumed.
+    def run_jobs(js):
+        if not js:
+            return []
+        if os.environ.get("VERIF_INPROC"):
+            return [_worker(j) for j in js]
+        with mp.get_context("fork").Pool(min(len(js), int(os.environ.get("VERIF_JOBS", "16"))), maxtasksperchild=1) as pool:
+            return pool.map(_worker, js, chunksize=1)
+
+    primary = set(fqs)
+    supported = {}       # contract key -> set of clause labels already verified as supporting (None = all)
+    new_reports = [r for r in part_reports if r["status"] == "ok"]
+    seen_parts = set()
+    support_keys = []
+    for _round in range(8):
+        want = {}        # key -> labels assumed by some caller (None = all)
+        for r in new_reports:
+            assumed = {}
+            for skey, label in r.get("assumed", []):
+                assumed.setdefault(skey, set()).add(label)
+            for fq in r.get("by_contract", []):
+                for k, c in w.contracts.items():
+                    if k.split("#")[0] != fq or c.trusted:
+                        continue
+                    summary = w.call_contracts.get(fq)
+                    if summary is not None and summary.key == k:
+                        labels = assumed.get(k, set())
+                    else:
+                        labels = None    # summarised through a union summary: every clause of the component carries it
+                    if k in want and want[k] is None:
+                        continue
+                    want[k] = None if labels is None else (want.get(k, set()) | labels)
+        js = []
+        for k, labels in want.items():
+            first = k not in supported
+            have = supported.get(k, set())
+            if not first and (have is None or (labels is not None and labels <= have)):
+                continue
+            todo = None if labels is None else (labels - (have or set()))
+            supported[k] = None if labels is None else ((have or set()) | labels)
+            sup = {"pid": pid, "skip": pid if k in primary else None, "labels": todo, "only_posts": not first}
+            n = max(1, int(w.contracts[k].cost_hint))
+            js += [(k, known, pid, (i, n) if n > 1 else None, sup) for i in range(n)]
+            if first:
+                support_keys.append(k)
+        if not js:
+            break
+        js.sort(key=lambda j: -w.contracts[j[0]].cost_hint)
+        got = run_jobs(js)
+        part_reports += got
+        new_reports = [r for r in got if r["status"] == "ok"]
     reports = merge_parts(part_reports)
     errors = [r for r in reports if r["status"] != "ok"]
     # lemmas (SMT-only composition arguments over the contracts)
@@ -158,7 +235,7 @@ def run_property(pid, tier, seed):
             relevant.append((lr, ob))
     total = len(relevant)
     discharged = sum(1 for _, ob in relevant if ob["discharged"] == ob["instances"])
-    violations, known_hits = [], []
+    violations, known_hits, support_known = [], [], []
     replay_base = os.environ.get("PYVC_REPLAY_DIR") or "replays"   # (dev runs on scratch copies write elsewhere)
     os.makedirs(os.path.join(HERE, replay_base, pid), exist_ok=True)
     for r, ob in relevant:
@@ -167,7 +244,13 @@ def run_property(pid, tier, seed):
         fails = ob["failed"]
         if all(f.get("known") for f in fails):
             for kid in sorted({f["known"] for f in fails}):
-                known_hits.append((kid, ob["name"]))
+                kprop = next((x.get("property") for x in known_all if x.get("id") == kid), None)
+                if ob.get("supporting") and kprop != pid:
+                    # an open finding of ANOTHER property met in a supporting function: not a violation of this property;
+                    # the callee precondition it breaks is recorded as an assumption this property's proof leaves unchecked
+                    support_known.append((kid, ob["name"]))
+                else:
+                    known_hits.append((kid, ob["name"]))
             continue
         violations.append((r, ob))
     # expected-count guard
@@ -207,9 +290,12 @@ def run_property(pid, tier, seed):
     for r, ob in violations:
         f0 = next(f for f in ob["failed"] if not f.get("known"))
         path = os.path.join(replay_base, pid, sanitize(ob["name"]) + ".json")
-        if r["function"] not in searched:
-            searched[r["function"]] = find_failing_input(r["function"], ob["name"], f0.get("model"))
-        f0["replay"] = searched[r["function"]]
+        # one search per oracle and property (the handler oracle is the same scenario enumeration for every handler function)
+        okey = "handlers" if ".handler.source.SourceHandler." in r["function"] or ".handler.dest.DestHandler." in r["function"] \
+            else r["function"]
+        if okey not in searched:
+            searched[okey] = find_failing_input(r["function"], ob["name"], f0.get("model"), pid=pid)
+        f0["replay"] = searched[okey]
         rec = {
             "property": pid, "obligation": ob["name"], "kind": ob["kind"], "function": r["function"],
             "source": f"{r.get('file')}:{ob.get('line') or r.get('line')}",
@@ -224,13 +310,40 @@ def run_property(pid, tier, seed):
         confirmed = bool(f0.get("replay") and f0["replay"].get("confirmed"))
         tail = "" if confirmed else " no-failing-input-found"
         print(f"VIOLATION property={pid} replay={path} obligation={ob['name']} verdict={f0['verdict']}{tail}")
-        rc = max(rc, 1) if rc != 3 else 3
-    if violations and rc == 3 and not errors:
+        rc = 1   # a violation derived from a completely analysed function stands whatever else could not be analysed
+    if violations:
         rc = 1
+    elif errors and any(e.get("function", "").startswith("cfdppy.") for e in errors):
+        # a function under contract could not be analysed (typically: changed code left the supported subset).  That is
+        # undecided, not a violation - unless the concrete oracle of that function finds a failing input on the real code.
+        for e in errors:
+            fn = e.get("function", "")
+            if not fn.startswith("cfdppy."):
+                continue
+            okey = "handlers" if ".handler.source.SourceHandler." in fn or ".handler.dest.DestHandler." in fn else fn
+            if okey not in searched:
+                searched[okey] = find_failing_input(fn, fn + "::not-analysable", None, pid=pid)
+            rp = searched[okey]
+            if rp and rp.get("confirmed"):
+                name = fn + "::not-analysable"
+                path = os.path.join(replay_base, pid, sanitize(name) + ".json")
+                with open(os.path.join(HERE, path), "w") as fh:
+                    json.dump({"property": pid, "obligation": name, "kind": "not-analysable", "function": fn,
+                               "verdict": "verifier could not analyse the function; failing input found by the concrete oracle",
+                               "solver_output": e.get("error"), "replay": rp, "rerun": f"./check replay {path}"}, fh, indent=1, default=str)
+                print(f"VIOLATION property={pid} replay={path} obligation={name} verdict=concrete-failing-input")
+                violations.append(({"function": fn}, {"name": name}))
+                rc = 1
+                break
+    if support_known:
+        spec = dict(spec)
+        spec["assumptions"] = list(spec.get("assumptions", [])) + [
+            f"supporting obligation {name} holds except for the input class of open finding {kid} (a finding of another property); "
+            f"this property's proof assumes the callee contract there" for kid, name in sorted(set(support_known))]
     write_evidence(pid, tier, seed, spec, reports, lemma_reports, relevant, total, discharged, violations, known_hits,
                    errors, time.time() - t0)
     status = {0: "PASS", 1: "VIOLATION", 3: "CHECKER-ERROR"}[rc]
-    print(f"{status} property={pid} tier={tier} functions={len(fqs)} obligations={total} discharged={discharged} "
+    print(f"{status} property={pid} tier={tier} functions={len(fqs)} supporting={len(support_keys)} obligations={total} discharged={discharged} "
           f"known_findings={len(printed)} violations={len(violations)} wall={time.time() - t0:.1f}s")
     return rc
 
@@ -265,7 +378,9 @@ def write_evidence(pid, tier, seed, spec, reports, lemma_reports, relevant, tota
         "functions_under_contract": [
             {"function": r["function"], "source": f"{r['file']}:{r['line']}", "paths": r["paths"],
              "path_outcomes": r["path_outcomes"], "obligations": len(r["obligations"]),
-             "inlined_callees": r["inlined"], "callees_by_contract": r["by_contract"], "stubs": r["stubs"]}
+             "inlined_callees": r["inlined"], "callees_by_contract": r["by_contract"], "stubs": r["stubs"],
+             "role": ("supporting: summarised by contract inside a function of this property; verified for what its callers assume"
+                      if r["obligations"] and all(ob.get("supporting") for ob in r["obligations"]) else "carries clauses of this property")}
             for r in ok_reports],
         "lemmas": [{"name": lr["function"], "obligations": len(lr["obligations"])} for lr in lemma_reports],
         "backends": backends,
